@@ -257,6 +257,9 @@ def monitor (pid : String) (c0 a : List String) : String :=
       (match pid with
        | "C03" => Spec.Mon.check3 cfg evs ++ Spec.AuthMon.checkGreetFlavour cfg.lmtp input evs
        | "C04" => Spec.Mon.check4 cfg.lmtp drecs evs
+       -- C17 on conversations: the final reply for a message is the backend's own result for that message (the rule of C04 that
+       -- compares the reply with the delivery record)
+       | "C17" => (Spec.Mon.check4 cfg.lmtp drecs evs).filter (fun r => (r.splitOn "own outcome").length > 1)
        | "C08" =>
          if tag == "TAG=logoutcount" then
            -- `Close` arrives from another goroutine while `NewSession` is still running (the NS event is logged on entry): the order of
